@@ -48,6 +48,8 @@ const MENU: [&str; 18] = [
 ];
 /// the first `MENU_CORE` lines form the menu of the big families
 const MENU_CORE: usize = 15;
+/// leaves of the `special-files` families: multi-byte text, CR LF line ends, blank-only files, a file ending in CR
+const SPECIAL_LEAVES: [&str; 6] = ["é€😀 z\n", "a\r\nb\r\n", " \n \n", "\n\n", "a\r", "é\\endinput €\n😀\n"];
 const LEAVES: [&str; 5] = ["k", "k\n", "", "p\nq\n", "u\\endinput v\nw\n"];
 
 #[derive(Clone, Debug, PartialEq)]
@@ -364,7 +366,8 @@ fn chain_case(n: usize, shape: usize) -> TreeCase {
 /// line end must still be reported to \read (seeded regression C19-e)
 /// fn..fq have the unmatched `}` on their last line (seeded regression C19-h): the rest of the line is
 /// dropped (§486) and the stream is afterwards as after any other last line
-const STREAM_FILES: [(&str, &str); 17] = [
+/// fr: 2-, 3- and 4-byte characters in front of an unmatched `}`; fs: blank lines only; ft: CR LF line ends
+const STREAM_FILES: [(&str, &str); 20] = [
     ("fa", ""),
     ("fb", "a"),
     ("fc", "a\n"),
@@ -381,9 +384,12 @@ const STREAM_FILES: [(&str, &str); 17] = [
     ("fo", "a}b\n"),
     ("fp", "x\na}b"),
     ("fq", "}"),
+    ("fr", "é€😀}z\nq"),
+    ("fs", " \n \n"),
+    ("ft", "a\r\nb\r\n"),
     ("fh", "{a"),
 ];
-const XS_FILES: usize = 16;
+const XS_FILES: usize = 19;
 const TERMINAL: [&str; 14] = ["p", "q{", "r}", "s", "t}u", "v", "w", "p", "q{", "r}", "s", "t}u", "v", "w"];
 
 #[derive(Clone, Copy, Debug, PartialEq)]
@@ -630,6 +636,38 @@ fn check_history(idx: u64, h: &[Act], obs: &[i64], with_drain: bool, no_elc: boo
     if mt.empty_read {
         acc.count("read_of_line_without_tokens");
     }
+    for a in h {
+        if let Act::Open(_, f) = a {
+            if *f != usize::MAX {
+                let t = STREAM_FILES[*f].1;
+                if !t.is_ascii() {
+                    acc.count("stream_file_with_multibyte_text");
+                }
+                if t.contains('\r') {
+                    acc.count("stream_file_with_crlf");
+                }
+                if !t.is_empty() && t.chars().all(|c| c == ' ' || c == '\n') {
+                    acc.count("stream_file_blank_only");
+                }
+            }
+        }
+    }
+    {
+        // "the same thing again": \openin on a stream that is open
+        let mut open = [false; 16];
+        for a in h {
+            match a {
+                Act::Open(s, f) if (0..16).contains(s) => {
+                    if open[*s as usize] && *f != usize::MAX {
+                        acc.count("openin_on_an_open_stream");
+                    }
+                    open[*s as usize] = *f != usize::MAX;
+                }
+                Act::Close(s) if (0..16).contains(s) => open[*s as usize] = false,
+                _ => {}
+            }
+        }
+    }
     {
         let open: Vec<usize> = (0..16).filter(|s| mt.m.is_open(*s)).collect();
         if open.len() >= 2 {
@@ -848,6 +886,13 @@ fn main() {
     }
 
     self_validate(&mut ctx);
+    // every file of the read menu is opened at depth 1 on every observed stream and the drain that follows
+    // reads it to its end: it must have fewer lines than the drain has reads (one more for TeX's empty line)
+    for (n, t) in STREAM_FILES.iter().take(XS_FILES) {
+        if scan::split_lines(t).len() + 1 > DRAIN_READS {
+            ctx.machinery_error(format!("read file {n} has more lines than the drain reads"));
+        }
+    }
 
     let m = MENU_CORE;
     let m2 = MENU.len();
@@ -886,6 +931,55 @@ fn main() {
             let mut files = BTreeMap::new();
             let main = shape.build(0, i, "", &mut files, &mut vec![]);
             judge_tree(i, &TreeCase { main, files }, acc, true);
+        });
+    }
+    // F2c: special file contents (multi-byte, CR LF, blank-only) and "the same thing again"
+    {
+        let specials: Vec<Spec> = SPECIAL_LEAVES.iter().map(|s| Spec::Literal(s)).collect();
+        let shape = Shape::new(vec![files_upto(2, m2), specials]);
+        ctx.family("special-files", &format!("main: every file of <= 2 lines of the extended menu; each \\input: one of {SPECIAL_LEAVES:?}"), shape.count(), |i, acc| {
+            let mut files = BTreeMap::new();
+            let main = shape.build(0, i, "", &mut files, &mut vec![]);
+            let case = TreeCase { main, files };
+            if case.files.values().any(|t| !t.is_ascii()) {
+                acc.count("input_file_with_multibyte_text");
+            }
+            if case.files.values().any(|t| t.contains('\r')) {
+                acc.count("input_file_with_crlf");
+            }
+            if case.files.values().any(|t| !t.is_empty() && t.chars().all(|c| c == ' ' || c == '\n')) {
+                acc.count("input_file_blank_only");
+            }
+            judge_tree(i, &case, acc, true);
+        });
+        // the same file twice, a file that inputs itself, a file name of multi-byte characters
+        let line_shapes = ["\\input @", "\\input @ b", "a\\input @", "a\\input @ b"];
+        let contents: Vec<String> = LEAVES.iter().chain(SPECIAL_LEAVES.iter()).map(|s| s.to_string()).chain(["x\\endinput\\input zz y".to_string()]).collect();
+        let names = ["a", "é€😀"];
+        let nl = line_shapes.len() as u64;
+        let n = nl * nl * contents.len() as u64 * names.len() as u64 + nl * 2;
+        let c = &contents;
+        ctx.family("input-again", &format!("the same file input twice (two lines from {line_shapes:?}, with and without final newline of the second) x file contents (leaf sets + one that inputs a missing file) x file name in {names:?}; and a file whose only line inputs itself (4 line shapes x with/without newline)"), n, |i, acc| {
+            let twice = nl * nl * c.len() as u64 * names.len() as u64;
+            let case = if i < twice {
+                let d = vcore::digits(i, &[nl, nl, c.len() as u64, names.len() as u64]);
+                let name = names[d[3] as usize];
+                let main = format!("{}\n{}", line_shapes[d[0] as usize].replace('@', name), line_shapes[d[1] as usize].replace('@', name));
+                let mut files = BTreeMap::new();
+                files.insert(name.to_string(), c[d[2] as usize].clone());
+                acc.count("same_file_input_twice");
+                if !name.is_ascii() {
+                    acc.count("file_name_of_multibyte_characters");
+                }
+                TreeCase { main, files }
+            } else {
+                let j = i - twice;
+                let mut files = BTreeMap::new();
+                files.insert("a".to_string(), format!("{}{}", line_shapes[(j / 2) as usize].replace('@', "a"), if j % 2 == 0 { "" } else { "\n" }));
+                acc.count("file_inputs_itself");
+                TreeCase { main: "\\input a m".into(), files }
+            };
+            judge_tree(i, &case, acc, false);
         });
     }
     // F3: chains
@@ -997,6 +1091,20 @@ fn main() {
     ctx.require("read_from_terminal", "a \\read went to the terminal");
     ctx.require("stream_number_out_of_range", "a stream number outside 0..15 was used");
     ctx.require("two_streams_open", "two streams are open at the same time");
+    for (c, m) in [
+        ("stream_file_with_multibyte_text", "a read stream is opened on a file with 2-, 3- and 4-byte characters"),
+        ("stream_file_with_crlf", "a read stream is opened on a file with CR LF line ends"),
+        ("stream_file_blank_only", "a read stream is opened on a file of blank lines only"),
+        ("openin_on_an_open_stream", "\\openin on a stream that is already open"),
+        ("input_file_with_multibyte_text", "\\input of a file with multi-byte characters"),
+        ("input_file_with_crlf", "\\input of a file with CR LF line ends"),
+        ("input_file_blank_only", "\\input of a file of blank lines only"),
+        ("same_file_input_twice", "the same file is input twice"),
+        ("file_name_of_multibyte_characters", "the name of an input file consists of multi-byte characters"),
+        ("file_inputs_itself", "a file inputs itself (runs into the documented limit)"),
+    ] {
+        ctx.require(c, m);
+    }
     ctx.require("read_of_line_without_tokens", "a \\read meets a line that delivers no token (comment-only line; empty or ignored-only line without end-line character) and stores the empty list");
     ctx.require("history_ends_in_fatal_error", "a history dies (terminal exhausted or file ended inside a group)");
     ctx.finish("file trees: every tree of the stated shapes (non-trivial = a file is opened or an \\endinput executed); read streams: every history of the action alphabet up to the depth bound, states merged on the drained implementation state (non-trivial = opens an existing file and reads); both compared with reftex::readtoks after every history");
